@@ -1,7 +1,7 @@
 (* C01: FEB words behave as atomic full/empty cells.  Statements only; proofs in Feb/Proofs.v, Feb/ProxyProofs.v, Cell/Proofs.v *)
 From Coq Require Import List ZArith NArith Bool Permutation.
 Import ListNotations.
-From QV Require Import Cell.Spec Cell.Proofs Feb.Model Feb.Proofs Feb.GenProxy Feb.ProxyProofs Feb.NoDup.
+From QV Require Import Cell.Spec Cell.Proofs Feb.Model Feb.Proofs Feb.GenProxy Feb.ProxyProofs Feb.NoDup Feb.Micro Feb.MicroProofs.
 
 (* every reachable state (any list of (task, call) steps on any words, spawns included) keeps the queue discipline:
    full -> FEQ = FFQ = FFWQ = [], not full -> EFQ = [] *)
@@ -77,3 +77,43 @@ Theorem ef_fe_once : forall (c : cell) (l : list (N * cop)) rs c',
   ef_fe_only l -> lin c l rs c' -> handover (c_full c) (c_val c) l rs.
 Proof. intros c l rs c'. exact (Cell.Proofs.ef_fe_once c l rs c'). Qed.
 Print Assumptions ef_fe_once.
+
+(* ---------------- micro-step layer (Feb/Micro.v): two tasks, one word, every interleaving of the shared accesses ----------------
+   For every pair of the 13 x 13 API calls, from both initial word states (no record = full; record present and empty), every
+   maximal interleaving of the two calls' micro-steps (stripe lock, lookup / insert, record lock, stripe unlock, word access,
+   gotlock body, record unlock, record removal) ends with results, full bit and value that the two atomic Cell.Spec
+   operations produce in one of the two orders, and no task is stuck on a lock.  Finite domain: exhaustive, through a
+   checked reachable-set certificate (MicroProofs.cert_sound). *)
+Theorem micro_atomic_pairs : forall pe oa ob,
+  In oa (ops_of 11) -> In ob (ops_of 22) ->
+  forall sched s, Forall (fun t => t = 0%N \/ t = 1%N) sched ->
+    run_with mstep (minit pe 5 oa ob) sched = Some s -> final_with mstep s -> good_final pe 5 oa ob s = true.
+Proof. exact MicroProofs.micro_atomic_pairs. Qed.
+Print Assumptions micro_atomic_pairs.
+
+(* regressions about the access order before /repo eba51ae (word touched after the stripe unlock on the record-absent paths):
+   it is not atomic; one witness per class, each reproduced on the real code before the fix *)
+Theorem micro_atomic_old_refuted : exists pe v oa ob, ~ micro_atomic_old pe v oa ob.
+Proof. exact MicroProofs.micro_atomic_old_refuted. Qed.
+Print Assumptions micro_atomic_old_refuted.
+
+Theorem micro_old_writeF_readFE_refuted :
+  exists s, run_with mstep_old (minit false 5 (OWriteF (Some 11%Z)) (OReadFE DOwn)) (sched_of [0;0;0;1;1;1;1;1;1;0;1;1]%nat) = Some s /\
+            final_with mstep_old s /\ good_final false 5 (OWriteF (Some 11%Z)) (OReadFE DOwn) s = false /\
+            outcome_of s = (Some (OK, None), Some (OK, Some 5%Z), false, 11%Z).
+Proof. exact writeF_readFE_bad. Qed.
+Print Assumptions micro_old_writeF_readFE_refuted.
+
+Theorem micro_old_readFF_purge_refuted :
+  exists s, run_with mstep_old (minit false 5 (OReadFF DOwn) (OPurge (Some 22%Z))) (sched_of [0;0;0;1;1;1;1;0]%nat) = Some s /\
+            final_with mstep_old s /\ good_final false 5 (OReadFF DOwn) (OPurge (Some 22%Z)) s = false /\
+            outcome_of s = (Some (OK, Some 22%Z), Some (OK, None), false, 22%Z).
+Proof. exact readFF_purge_bad. Qed.
+Print Assumptions micro_old_readFF_purge_refuted.
+
+Theorem micro_old_purge_writeEF_refuted :
+  exists s, run_with mstep_old (minit false 5 (OPurge (Some 11%Z)) (OWriteEF (Some 22%Z))) (sched_of [0;0;0;1;1;1;1;1;1;0;1;1;1;1;1]%nat) = Some s /\
+            final_with mstep_old s /\ good_final false 5 (OPurge (Some 11%Z)) (OWriteEF (Some 22%Z)) s = false /\
+            outcome_of s = (Some (OK, None), Some (OK, None), true, 11%Z).
+Proof. exact purge_writeEF_bad. Qed.
+Print Assumptions micro_old_purge_writeEF_refuted.
